@@ -653,16 +653,39 @@ theorem incrby_runL (ctx : Ctx) (time : Int) (live : Bytes → Option Item) (ok 
     exact incrCore_runL sigIncrby Cmd.incrby ctx time live ok k [k, nb] [.key 0, .int a] a
       (applyL_KS_int _ _ _ _ _ _ _ a hn live) (fun _ => rfl)
 
+/-- DECRBY with the converted amount `a`: the smallest 64-bit integer cannot be negated and is refused for
+every stored string (and for a missing key); a key of another type is WRONGTYPE as always (the type check of
+`Signature.apply` comes first); any other amount is `INCRBY (-a)` -/
+def decrSpec (live : Bytes → Option Item) (k : Bytes) (a : Int) : Reply × (Bytes → Option Item) :=
+  if a = -9223372036854775808 then
+    match live k with
+    | none => (.err (strBytes Msgs.DECR_OVERFLOW_MSG), live)
+    | some ⟨.str _, _⟩ => (.err (strBytes Msgs.DECR_OVERFLOW_MSG), live)
+    | some _ => (wrongtype, live)
+  else incrSpec live k (-a)
+
 theorem decrby_runL (ctx : Ctx) (time : Int) (live : Bytes → Option Item) (ok : LiveOK time live) (k nb : Bytes) :
     runL sigDecrby Cmd.decrby ctx [k, nb] time live =
       match Conv.int nb with
       | .error m => (.err (strBytes m), live)
-      | .ok a => incrSpec live k (-a) := by
+      | .ok a => decrSpec live k a := by
   cases hn : Conv.int nb with
   | error m => rw [runL_eq, sigDecrby, applyL_KS_int_err _ _ _ _ _ _ _ m hn]
   | ok a =>
-    exact incrCore_runL sigDecrby Cmd.decrby ctx time live ok k [k, nb] [.key 0, .int a] (-a)
-      (applyL_KS_int _ _ _ _ _ _ _ a hn live) (fun _ => rfl)
+    simp only
+    unfold decrSpec
+    by_cases ha : a = -9223372036854775808
+    · rw [if_pos ha, runL_eq, sigDecrby, applyL_KS_int _ _ _ _ _ _ _ a hn live]
+      have hb : (a == -9223372036854775808) = true := by simpa using ha
+      cases h : live k with
+      | none => simp [Cmd.decrby, hb]
+      | some it =>
+        obtain ⟨v, e⟩ := it
+        cases v <;> simp [Value.ty, Cmd.decrby, hb, wrongtype]
+    · rw [if_neg ha]
+      have hb : (a == -9223372036854775808) = false := by simpa using ha
+      exact incrCore_runL sigDecrby Cmd.decrby ctx time live ok k [k, nb] [.key 0, .int a] (-a)
+        (applyL_KS_int _ _ _ _ _ _ _ a hn live) (fun _ => by simp [Cmd.decrby, hb])
 
 /-- INCRBYFLOAT on a stored string -/
 def incrFloatOn (version : Nat) (live : Bytes → Option Item) (k stored : Bytes) (e : Option Int) (amount : Bytes) :
